@@ -404,11 +404,11 @@ mulBMI2:
 	MOVQ acc0, AX
 	SBBQ DX, acc0
 
-	ADOXQ AX, acc1
-	ADOXQ res_ptr, acc2
-	ADOXQ res_ptr, acc3
-	ADOXQ acc0, acc4
-	ADOXQ res_ptr, acc5
+	ADDQ AX, acc1
+	ADCQ $0, acc2
+	ADCQ $0, acc3
+	ADCQ acc0, acc4
+	ADCQ $0, acc5
 
 	XORQ acc0, acc0
 	// x * y[1]
@@ -443,11 +443,11 @@ mulBMI2:
 	MOVQ acc1, AX
 	SBBQ DX, acc1
 
-	ADOXQ AX, acc2
-	ADOXQ res_ptr, acc3
-	ADOXQ res_ptr, acc4
-	ADOXQ acc1, acc5
-	ADOXQ res_ptr, acc0
+	ADDQ AX, acc2
+	ADCQ $0, acc3
+	ADCQ $0, acc4
+	ADCQ acc1, acc5
+	ADCQ $0, acc0
 	
 	XORQ acc1, acc1
 	// x * y[2]
@@ -482,11 +482,11 @@ mulBMI2:
 	MOVQ acc2, AX
 	SBBQ DX, acc2
 
-	ADOXQ AX, acc3
-	ADOXQ res_ptr, acc4
-	ADOXQ res_ptr, acc5
-	ADOXQ acc2, acc0
-	ADOXQ res_ptr, acc1
+	ADDQ AX, acc3
+	ADCQ $0, acc4
+	ADCQ $0, acc5
+	ADCQ acc2, acc0
+	ADCQ $0, acc1
 	
 	XORQ acc2, acc2
 	// x * y[3]
@@ -521,11 +521,11 @@ mulBMI2:
 	MOVQ acc3, AX
 	SBBQ DX, acc3
 
-	ADOXQ AX, acc4
-	ADOXQ res_ptr, acc5
-	ADOXQ res_ptr, acc0
-	ADOXQ acc3, acc1
-	ADOXQ res_ptr, acc2
+	ADDQ AX, acc4
+	ADCQ $0, acc5
+	ADCQ $0, acc0
+	ADCQ acc3, acc1
+	ADCQ $0, acc2
 	
 	MOVQ res+0(FP), res_ptr
 	p256PrimReduce(acc4, acc5, acc0, acc1, acc2, x_ptr, acc3, t0, BX, res_ptr)
